@@ -185,6 +185,25 @@ def run(chk):
             chk.violation("input", "the emitted bytes depend on what an earlier run left in the output directory (%s): %s differ from the run into a fresh directory" % (cid.split("_", 1)[1], diff),
                           case={"kind": "proj", "files": files, "pre": [list(p) for p in pre]}, expected=str(fresh[k][1].get(diff[0]) if diff else fresh[k][0])[:800],
                           actual=str(outs.get(diff[0]) if diff else verdict)[:800])
+    # … and into a directory whose files have exactly the SIZE of the new outputs but another content (second batch: the
+    # sizes are only known after the fresh run)
+    same = []
+    for cid, files, pre in disk:
+        k = cid.split("_")[0]
+        if pre is None and k in fresh and fresh[k][0] == "ok":
+            pre2 = tuple((o, "#" * (len(c.encode("utf-8")) - 1) + "\n") for o, c in fresh[k][1].items() if c)
+            same.append((cid, files, pre2))
+    sres = chk.harness("proj", [(cid, _c13.payload(files, pre)) for cid, files, pre in same], parallel=8) if same else {}
+    for cid, files, pre in same:
+        verdict, msgs, tree = _c13.parse_result(sres.get(cid, "MISSING"))
+        k = cid.split("_")[0]
+        outs = {r[:-6] + ".py": tree.get(r[:-6] + ".py") for r, _ in files}
+        n_disk += 1
+        if (verdict, outs) != fresh[k] and len(chk.violations) < 5:
+            diff = [o for o in outs if outs[o] != fresh[k][1].get(o)]
+            chk.violation("input", "the emitted bytes depend on what an earlier run left in the output directory (files of the same size, other content): %s differ from the run into a fresh directory" % diff,
+                          case={"kind": "proj", "files": files, "pre": [list(p) for p in pre]}, expected=str(fresh[k][1].get(diff[0]) if diff else fresh[k][0])[:800],
+                          actual=str(outs.get(diff[0]) if diff else verdict)[:800])
     chk.cov["earlier_runs_on_disk"] = {"projects": len(fresh), "runs_into_populated_directories": n_disk}
     chk.sample({"class": classes[0][0], "model_order": mod.get("k0") if mod else None})
     chk.cov["oracle"] = {"spec": "byte-identical result for the same input: repeated in one process (fresh hash seeds per map), after arbitrary other workloads, in several processes, single-threaded and 8 at a time",
